@@ -11,6 +11,41 @@ use crate::props::c01::bad;
 
 // -- (1) every built FST verifies and carries the reference checksum ---------
 
+/// Special values written over the 4-byte checksum field of a built FST:
+/// none of them is the masked CRC-32C of the body, so verify() must fail.
+fn check_checksum_field(orig: &[u8], rec: &mut Rec, what: &dyn Fn() -> String) -> CheckResult {
+    let n = orig.len();
+    let body = &orig[..n - 4];
+    let good = crcref::masked(body);
+    let crc = crcref::crc32c(body);
+    let stored = u32::from_le_bytes([orig[n - 4], orig[n - 3], orig[n - 2], orig[n - 1]]);
+    let candidates = [
+        0u32,
+        u32::MAX,
+        1,
+        crc,                                  // unmasked
+        !crc,
+        crc.rotate_right(15),                 // rotated but offset not added
+        crc.wrapping_add(0xA282_EAD8),        // offset added but not rotated
+        stored.swap_bytes(),
+        stored.wrapping_add(1),
+        stored ^ 0x8000_0000,
+        crcref::masked(orig),                 // checksum of the whole file
+        crcref::masked(&orig[..n - 5]),       // one byte short
+        crcref::masked(&orig[16..n - 4]),     // body without the header
+    ];
+    for c in candidates {
+        if c == good {
+            continue;
+        }
+        let mut m = orig.to_vec();
+        m[n - 4..].copy_from_slice(&c.to_le_bytes());
+        judge(orig, &m, rec, &|| format!("checksum field replaced by {:#010x} (correct {:#010x}); {}", c, good, what()))?;
+        rec.class("checksum_field_special_value");
+    }
+    Ok(())
+}
+
 fn check_built(input: &FstInput, rec: &mut Rec) -> CheckResult {
     rec.eval();
     let built = gen::build(input).map_err(|e| Fail::new("build-error", e))?;
@@ -25,7 +60,7 @@ fn check_built(input: &FstInput, rec: &mut Rec) -> CheckResult {
         vfail!("verify-built", "verify() fails on a freshly built FST: {:?}; keys {}", e, crate::oracle::keys_show(&input.pairs));
     }
     rec.class("built_fst_verified");
-    Ok(())
+    check_checksum_field(b, rec, &|| format!("keys {}", crate::oracle::keys_show(&input.pairs)))
 }
 
 // -- (2) CRC differential ------------------------------------------------------
@@ -170,6 +205,11 @@ fn check_mut(c: &MutCase, rec: &mut Rec) -> CheckResult {
     judge(orig, &m, rec, &|| format!("{} byte(s) at offset {} of {} xor {}; keys {}", c.bytes.len(), pos, orig.len(), hex(&c.bytes), crate::oracle::keys_show(&c.input.pairs)))
 }
 
+/// Entry point for the fuzz target: apply a burst at `pos` (mod file length).
+pub fn check_mut_case(input: &FstInput, pos: usize, bytes: &[u8]) -> CheckResult {
+    check_mut(&MutCase { input: input.clone(), pos, bytes: bytes.to_vec() }, &mut Rec::new(0))
+}
+
 pub fn run(e: &Engine) {
     crcref::self_test();
     e.set_rule("three families: (1) every build from C01's space must verify() and carry trailer == mask(crc32c(prefix)) per an independent bitwise CRC; (2) CRC differential: byte strings of every length 0..700 (4096 thorough) x 4 contents x chunkings with cut points around multiples of 16, through the hook masked_crc32c(chunks) and hook-free through a version-3 frame whose ChecksumMismatch{got} exposes the implementation's checksum; (3) corruption: every byte position x all 255 replacement values of small FSTs, sampled positions and 1..4-byte bursts of larger ones; a violation is a mutated copy that opens and verifies although its stored checksum is not the reference checksum of its body; non-trivial = mutation of a distinct (FST, position, xor) or CRC case of length >= 16 with a cut inside a 16-byte block");
@@ -287,7 +327,10 @@ pub fn run(e: &Engine) {
             check_mut(&c, rec)
         },
     );
-    for cls in ["mutation_caught_by_verify", "mutation_refused_at_open", "mutation_flips_version(checksum_missing)", "crc_via_public_api", "crc_cut_inside_16_byte_block", "built_fst_verified"] {
+    if e.tier == crate::engine::Tier::Thorough {
+        crate::fuzzrun::campaign(e, "mutate_verify", 400_000, 700);
+    }
+    for cls in ["mutation_caught_by_verify", "mutation_refused_at_open", "mutation_flips_version(checksum_missing)", "crc_via_public_api", "crc_cut_inside_16_byte_block", "built_fst_verified", "checksum_field_special_value"] {
         e.require_class(cls, 1);
     }
 }
